@@ -33,5 +33,5 @@ def run(ctx):
                 "detected.verify_tool.abort-at-open": 50, "tool.command_line.intact-file-first": 300, "tool.command_line.intact-file-last": 100,
                 "faults.reader_option_calls.pattern1": 1000, "faults.reader_option_calls.pattern3": 1000},
         exhaustive=False,
-        extra={"exhaustive_subspace": "all single-bit flips of every block (crc field + stored bytes) of each 'small' file",
+        extra={"exhaustive_subspace": "all single-bit flips of every block (crc field + stored bytes) of each 'small' file counted under small.files_every_bit (files above 320 000 single-bit faults are strided and counted separately)",
                "detections_by_path": {k: v for k, v in s.items() if k.startswith("detected.")}})
